@@ -238,4 +238,37 @@ theorem wsObs_of_post (mode : Mode) (R0 : Res) (r : List Msg × Sess × Bool) (h
     rw [hR]
     simp [wsObs, specObs]
 
+/-! ### the abstraction as a function of the reader state -/
+
+/-- phase and bytes consumed but not yet delivered, read off the reader state: before `up` the validator state and
+the line buffer; inside a frame header `rd_header[0 .. hdr_ofs)`; inside a payload the complete header (its length
+is determined by its second byte) ++ `rx_data[0 .. data_ofs)` -/
+def wsAbs (st : St) : Abs :=
+  if !st.up then .hs st.seen st.httpHdr
+  else if st.allHdrIn then
+    .fr (st.rdHeader.take (2 + hExtra (st.rdHeader.getD 1 0).toNat) ++ st.rxData.getD [])
+  else .fr st.rdHeader
+
+/-- the parser position of the invariant is determined by the reader state -/
+theorem wsAbs_of_inv (mode : Mode) (st : St) (a : Abs) (h : WsInv mode st a) : wsAbs st = a := by
+  cases a with
+  | hs s l =>
+    obtain ⟨⟨hup, _⟩, hs, hl⟩ := h
+    simp [wsAbs, hup, hs, hl]
+  | fr p =>
+    rcases h with ⟨⟨hup, hall, hrd, _⟩, _⟩ | ⟨hup, hall, b0, b1, r, D, hp, hr, _, _, _, _, _, _, _, _, hrx, ⟨junk, hpre⟩⟩
+    · simp [wsAbs, hup, hall, hrd]
+    · have htake : st.rdHeader.take (2 + hExtra (st.rdHeader.getD 1 0).toNat) = b0 :: b1 :: r := by
+        rw [← hpre]
+        simp only [List.cons_append, List.getD_cons_succ, List.getD_cons_zero]
+        rw [show 2 + hExtra b1.toNat = (b0 :: b1 :: r).length by simp only [List.length_cons]; omega]
+        exact List.take_left' rfl
+      have hget : st.rxData.getD [] = D := by
+        rw [hrx]
+        by_cases hd : D = []
+        · simp [hd]
+        · simp [hd]
+      simp only [wsAbs, hup, hall, Bool.not_true, Bool.false_eq_true, if_false, if_true, htake, hget, hp]
+      simp
+
 end Coap
